@@ -125,6 +125,12 @@ class Marker:
     def __repr__(self):
         return f"<{self.name}>"
 
+    def __eq__(self, o):
+        return isinstance(o, Marker) and o.name == self.name
+
+    def __hash__(self):
+        return hash(self.name)
+
 
 NDARRAY, NUMBER, ITERABLE, CALLABLE = Marker("np.ndarray"), Marker("Number"), Marker("Iterable"), Marker("Callable")
 
@@ -533,6 +539,8 @@ class Interp:
                 return indices
         if isinstance(v, ExcValue) and name == "args":
             return tuple(v.args)
+        if isinstance(v, (ExcValue, PyRaise)) and name == "with_traceback":
+            return lambda tb=None: v
         if isinstance(v, BT) and name == "__name__":
             return v.name
         if isinstance(v, Opaque):
@@ -770,6 +778,14 @@ class Interp:
 
     # ================================================================ builtins
     def builtin(self, name):
+        if name in ("int", "str", "float", "bool", "list", "tuple", "dict", "set", "frozenset", "slice", "object"):
+            c = self.__dict__.setdefault("_bt_cache", {})
+            if name not in c:
+                c[name] = self._builtin(name)
+            return c[name]             # `dim.dtype is int` must see one and the same object
+        return self._builtin(name)
+
+    def _builtin(self, name):
         I = self
         if name == "isinstance":
             return self.isinstance_
@@ -786,6 +802,8 @@ class Interp:
                     if not v.ndim:
                         raise PyRaise("TypeError", None, "len() of unsized object")
                     return v.shape[0]
+                if isinstance(v, PyModel):
+                    return len(v)
                 if isinstance(v, ItemList):
                     return TInt(len(v), src=tuple(v))
                 if isinstance(v, (SymScalar, int, float)) or v is None:
@@ -961,6 +979,9 @@ class Interp:
                     return True
             elif isinstance(x, TypeFn):
                 if isinstance(v, (ClassInfo, BT, TypeFn)):
+                    return True
+            elif isinstance(x, PyModel) and hasattr(x, "isinstance_check"):
+                if x.isinstance_check(v):
                     return True
             elif isinstance(x, Marker):
                 continue
@@ -1448,9 +1469,14 @@ class Interp:
         if isinstance(f, BT):
             if f.ctor is None:
                 raise AnalysisAbort(f"call of {f!r}")
-            return f.ctor(*args, **kwargs)
+            try:
+                return f.ctor(*args, **kwargs)
+            except (ValueError, TypeError) as e:
+                raise PyRaise(type(e).__name__, node, str(e), where=self.stack[-1] if self.stack else "")
         if isinstance(f, ExtModule):
             return self.call_ext(f, args, kwargs, node)
+        if isinstance(f, PyModel) and callable(f):
+            return f(*args, **kwargs)
         if f is NDARRAY:        # np.ndarray(shape): an uninitialised array
             return NP.zeros(self.as_shape(args[0] if args else kwargs.get("shape")), SymScalar(("sym", "uninitialised")), "np.ndarray")
         if isinstance(f, Marker):
@@ -1593,6 +1619,10 @@ class Interp:
         raise AnalysisAbort("binop")
 
     def contains(self, c, x, node=None):
+        if isinstance(c, PyModel):
+            if hasattr(c, "__contains__"):
+                return c.__contains__(x)
+            return any(y is x or self.py_eq(y, x) for y in self.iterate(c))
         if isinstance(c, Obj):
             r = self.p.find_attr(c.cls, "__contains__")
             if r:
